@@ -611,12 +611,13 @@ Definition tcase_ok (c : tcase) : bool :=
   | TUtf16 cps out => list_beq Z Z.eqb (Utf16.utf16 cps) out
   | TUnUtf16 us out => ol_eqb (Utf16.un_utf16 us) out
   | TBase b sh d osh od =>
-      (* the row length is taken from the implementation; it must be exactly the number of digits
-         the largest entry needs (sufficient: premise of C18_antibase_base; and not longer) *)
+      (* the row length is taken from the implementation; it must be sufficient for the largest entry
+         (premise of C18_antibase_base / est_close) and at most one digit longer than needed (the
+         float logarithm may round up: log2 (2^53-1) = 53.0) *)
       let len := Z.to_nat (last osh 0) in
       let m := zmax_list (map Z.abs d) in
       olz_eqb (Some (Base.base len b sh d)) (Some (osh, od))
-      && (m <? b ^ Z.of_nat len) && ((len =? 0)%nat || (b ^ Z.of_nat (pred len) <=? m))
+      && (m <? b ^ Z.of_nat len) && ((len <=? 1)%nat || (b ^ Z.of_nat (len - 2) <=? m))
   | TAntiBase b sh d osh od => olz_eqb (Some (Base.anti_base b sh d)) (Some (osh, od))
   | TBytes sg w big sh d osh od =>
       olz_eqb (Some (Bytes.encode {| Bytes.signed := sg; Bytes.width := w |} big sh d)) (Some (osh, od))
